@@ -193,13 +193,19 @@ impl<C: Wire> Iterator for Counter<C> {
     type Item = C;
     fn next(&mut self) -> Option<C> {
         let k = self.k;
-        self.k += 1;
+        self.k = self.k.saturating_add(1);
         self.pulled += 1;
         if k < self.max && k < self.n {
             Some(C::from_index(k))
         } else {
             None
         }
+    }
+    /// O(1) skip (same result as the default implementation)
+    fn nth(&mut self, n: usize) -> Option<C> {
+        let n = if n > u32::MAX as usize { u32::MAX } else { n as u32 };
+        self.k = self.k.saturating_add(n);
+        self.next()
     }
 }
 
@@ -353,6 +359,47 @@ where
     }
 }
 
+/// fill_contiguous with rectangles far away from / much larger than the display: arbitrary
+/// i32 position, width up to 200000 (more than 65536 clipped columns per row), few visible
+/// points.  The colour source skips in O(1), so there is no input-dependent loop.
+pub fn fill_contiguous_wide_h<M: Model, W: WordLike, const K: u8>(m: M)
+where
+    M::ColorFormat: InterfacePixelFormat<W> + Wire,
+{
+    let probe = any_probe::<M>();
+    let mut world = World::new(NEVER);
+    let cfg = any_cfg();
+    let Some(mut d) = build::<M, W, K, false>(m, &mut world, probe, &cfg) else {
+        return;
+    };
+    let (rx, ry, rw, rh): (i32, i32, u32, u32) = (kani::any(), kani::any(), kani::any(), kani::any());
+    kani::assume(rw <= 200_000 && rh <= 3);
+    kani::assume((rx as i64) + (rw as i64) <= i32::MAX as i64 && (ry as i64) + (rh as i64) <= i32::MAX as i64);
+    let n: u32 = kani::any();
+    let rect = Rectangle::new(Point::new(rx, ry), Size::new(rw, rh));
+    let mut src = Counter::<M::ColorFormat>::new(n, u32::MAX);
+    let r = d.fill_contiguous(&rect, &mut src);
+    assert!(r.is_ok(), "[C04][C02] Ok without a bus fault");
+    assert!(src.pulled <= 8, "[C04] terminates: colours pulled only for visible points (+ skips)");
+    let (ctl, _, _) = d.release();
+    let c = &ctl.c;
+    assert_framing(c);
+    assert!(!c.f_overrun, "[C08] more pixel data than the window holds");
+    match cfg.inv(probe) {
+        Some((x, y)) if rect_contains(&rect, x, y) => {
+            let k = ((y as i64 - ry as i64) as u64) * rw as u64 + (x as i64 - rx as i64) as u64;
+            if k < n as u64 {
+                assert!(c.probe_writes == 1 && c.probe_val == M::ColorFormat::from_index(k as u32).wire(), "[C04] colour k lands on point k also when more than 65535 colours are clipped per row");
+            } else {
+                assert!(c.probe_writes == 0, "[C04] points beyond the end of the stream stay untouched");
+            }
+            kani::cover!(k < n as u64 && rx < -66000 && y as i64 > ry as i64, "cover: second visible row of a rectangle starting > 65536 columns left of the display");
+        }
+        _ => assert!(c.probe_writes == 0, "[C04][C02] nothing outside rectangle and display changes"),
+    }
+    kani::cover!(rx > 70000, "cover: rectangle far to the right");
+}
+
 use crate::sym::VModel;
 use embedded_graphics_core::pixelcolor::{Rgb565, Rgb666};
 type V565<const FW: u16, const FH: u16> = VModel<Rgb565, FW, FH>;
@@ -369,9 +416,9 @@ macro_rules! h {
 }
 
 // ---- set_pixel: external model at the extreme and typical sizes, three colour/bus pairs
-//@ props=C01,C08,C20,C05 inst="VModel<Rgb565,1,1>/u8/Serial4Line" bounds="loop-free: all (w,h,ox,oy) in u16^4 accepted by init, 8 orientations, all in-bounds (x,y), all colours, every framebuffer cell" timeout=300 mem=4
+//@ props=C01,C20,C05 inst="VModel<Rgb565,1,1>/u8/Serial4Line" bounds="loop-free: all (w,h,ox,oy) in u16^4 accepted by init, 8 orientations, all in-bounds (x,y), all colours, every framebuffer cell" timeout=300 mem=4
 h!(c01_set_pixel_v1x1, 3, set_pixel_h::<_, u8, 0>(V565::<1, 1>::new()));
-//@ props=C01,C08,C20,C05 inst="VModel<Rgb565,65535,65535>/u8/Serial4Line" bounds="same" timeout=300 mem=4
+//@ props=C01,C20,C05 inst="VModel<Rgb565,65535,65535>/u8/Serial4Line" bounds="same" timeout=300 mem=4
 h!(c01_set_pixel_vmax, 3, set_pixel_h::<_, u8, 0>(V565::<65535, 65535>::new()));
 //@ props=C01,C08,C20,C05 inst="VModel<Rgb565,240,320>/u8/Serial4Line" bounds="same" timeout=300 mem=4
 h!(c01_set_pixel_v240x320, 3, set_pixel_h::<_, u8, 0>(V565::<240, 320>::new()));
@@ -381,9 +428,9 @@ h!(c01_set_pixel_v1xmax, 3, set_pixel_h::<_, u8, 1>(V565::<1, 65535>::new()));
 h!(c01_set_pixel_vmaxx1, 3, set_pixel_h::<_, u8, 1>(V565::<65535, 1>::new()));
 //@ props=C01,C08 tier=thorough inst="VModel<Rgb565,3,2>/u8/Serial4Line" bounds="same" timeout=600 mem=4
 h!(c01_set_pixel_v3x2, 3, set_pixel_h::<_, u8, 0>(V565::<3, 2>::new()));
-//@ props=C01,C08,C05 inst="VModel<Rgb666,320,480>/u8/Serial4Line" bounds="same, 3-byte pixels" timeout=300 mem=4
+//@ props=C01,C05 inst="VModel<Rgb666,320,480>/u8/Serial4Line" bounds="same, 3-byte pixels" timeout=300 mem=4
 h!(c01_set_pixel_v666_320x480, 5, set_pixel_h::<_, u8, 0>(V666::<320, 480>::new()));
-//@ props=C01,C08,C05 inst="VModel<Rgb565,320,240>/u16/Parallel16Bit" bounds="same, one 16-bit word per pixel" timeout=300 mem=4
+//@ props=C01,C05 inst="VModel<Rgb565,320,240>/u16/Parallel16Bit" bounds="same, one 16-bit word per pixel" timeout=300 mem=4
 h!(c01_set_pixel_v16_320x240, 3, set_pixel_h::<_, u16, 2>(V565::<320, 240>::new()));
 //@ props=C01,C08 tier=thorough inst="VModel<Rgb565,65535,65535>/u16/Parallel16Bit" bounds="same" timeout=600 mem=4
 h!(c01_set_pixel_v16_max, 3, set_pixel_h::<_, u16, 2>(V565::<65535, 65535>::new()));
@@ -400,7 +447,7 @@ h!(c01_set_pixels_rect_v666_3x2, 8, set_pixels_rect_h::<_, u8, 0>(V666::<3, 2>::
 
 //@ props=C01,C02,C08,C20 inst="VModel<Rgb565,15,15>/u8" bounds="loop-free (closed-form repeat model): every embedded-graphics-valid rectangle in i32^2 x u32^2, all cfgs, every cell" timeout=400 mem=4
 h!(c01_fill_solid_v15x15, 3, fill_solid_h::<_, u8, 0>(V565::<15, 15>::new()));
-//@ props=C01,C02,C08,C20 inst="VModel<Rgb565,240,320>/u8" bounds="same" timeout=900 mem=4
+//@ props=C01,C02,C20 inst="VModel<Rgb565,240,320>/u8" bounds="same" timeout=900 mem=4
 h!(c01_fill_solid_v240x320, 3, fill_solid_h::<_, u8, 0>(V565::<240, 320>::new()));
 //@ props=C01,C02,C08,C20 tier=thorough inst="VModel<Rgb666,320,480>/u8/Parallel8Bit" bounds="same" timeout=1800 mem=6
 h!(c01_fill_solid_v320x480, 3, fill_solid_h::<_, u8, 1>(V666::<320, 480>::new()));
@@ -417,3 +464,5 @@ h!(c01_clear_v16_320x240, 3, clear_h::<_, u16, 2>(V565::<320, 240>::new()));
 h!(c04_fillc_q, 12, fill_contiguous_h::<_, u8, 0>(V565::<3, 2>::new(), -2, 3, 3, 10));
 //@ props=C04,C01,C02,C08,C20 tier=thorough cfg=main,ptr16 inst="VModel<Rgb565,3,2>/u8" bounds="position in [-2,3]^2, size <= 4x4, stream 0..=17; unwind 19" timeout=3000 mem=10
 h!(c04_fillc_t, 19, fill_contiguous_h::<_, u8, 0>(V565::<3, 2>::new(), -2, 3, 4, 17));
+//@ props=C04,C02,C08 inst="VModel<Rgb565,3,2>/u8, 64-bit helper variants" bounds="rectangle at any i32 position, width <= 200000, height <= 3, any stream length in u32 (O(1)-skipping colour source); all cfgs on the 3x2 framebuffer; unwind 9" timeout=1800 mem=10
+h!(c04_fillc_wide, 9, fill_contiguous_wide_h::<_, u8, 0>(V565::<3, 2>::new()));
